@@ -6,7 +6,8 @@ MODULES = ['DsdVerif.Props.C14']
 GEN_FILES = ['IupacTables', 'Grammars']
 THEOREM_NAMES = ['ignore_skips', 'ignored_reaction_survives', 'reaction_missing_member', 'complement_sequence',
                  'complement_sequence_strong', 'non_iupac_rejected', 'failed_read_restores', 'sl_domain_length_mismatch',
-                 'dl_domain_lengths', 'read_domains_sigma', 'read_sequences_sigma', 'read_strands_sigma']
+                 'dl_domain_lengths', 'read_domains_sigma', 'read_sequences_sigma', 'read_strands_sigma',
+                 'read_scomplexes_sigma', 'read_kernels_sigma', 'read_duplicate_refused']
 THEOREMS = ['Dsd.C14.' + t for t in THEOREM_NAMES]
 ASSUMPTIONS = [
     'consistent systems are generated from an abstract model (domains with lengths or IUPAC sequences, strands / composite domains, '
@@ -27,15 +28,19 @@ MANIFEST = {
             'complement likewise; nothing else is in the dictionary; a line re-read on its own yields the same object), '
             'read_sequences_sigma (mixed length / sequence declarations: sequences stored, complements carry the reverse Watson-Crick '
             'complement), read_strands_sigma (plus composite-domain lines: every strand under its name with exactly the declared domain '
-            'list, whose members ARE the dictionary\'s domain objects). Clause theorems: ignore_skips, ignored_reaction_survives, '
+            'list, whose members ARE the dictionary\'s domain objects), read_scomplexes_sigma (plus strand-notation complexes: every complex '
+            'under its name, its registry object carries the minimal rotation as canonical form and all rotations as keys, its state the '
+            'declared sequence / structure with rotate^turns(canon) = declared, its children are the dictionary\'s domain objects), '
+            'read_kernels_sigma (plus kernel-notation complexes with optional concentration triple), read_duplicate_refused (the same '
+            'complex declared again under a new name is a SingletonError). Clause theorems: ignore_skips, ignored_reaction_survives, '
             'reaction_missing_member, complement_sequence_strong, failed_read_restores, sl_domain_length_mismatch, dl_domain_lengths; '
-            'component theorems of C01, C02, C12/C13 (kernel_rt, resolve_kernel_inverse) and C17. Complexes, macrostates and reactions '
-            'have no end-to-end theorem yet: for them the property is decided on the real reader by an independent abstract model of PIL '
+            'component theorems of C01, C02, C12/C13 (kernel_rt, resolve_kernel_inverse) and C17. Macrostates, reactions and kernel strings '
+            'that use composite domains have no end-to-end theorem yet: for them the property is decided on the real reader by an independent abstract model of PIL '
             'systems (all attributes, identical singletons, `ignore`, line vs document, several documents per configured session) plus '
             'the model correspondence.',
-    'note': 'End-to-end exactness is a theorem for domains, sequences and strands; for complexes, macrostates and reactions it is '
+    'note': 'End-to-end exactness is a theorem for domains, sequences, strands and complexes in both notations; for macrostates and reactions it is '
             'established by exploration on the real code plus model correspondence; trusted base as in DESIGN.md section 3.',
-    'technique': 'Lean 4 model of the whole reader: end-to-end theorems for domain / sequence / strand systems, clause theorems; correspondence on generated systems; model-based oracle',
+    'technique': 'Lean 4 model of the whole reader: end-to-end theorems for domain / sequence / strand / complex systems, clause theorems; correspondence on generated systems; model-based oracle',
 }
 
 
